@@ -228,6 +228,28 @@ def run(ctx, rep):
     rep.check("C04.e", "read_encrypted_from_partial/id-verified", hash_cmp2, where=RPF.loc(),
               what="blob reads compare hash(plaintext) with the blob id" if hash_cmp2 else
                    "blob reads do not compare hash(plaintext) with the blob id: a blob replaced by another valid blob of equal length is returned without error")
+    from rules import errprop
+    errprop.run_iter(ctx, rep, "C04.g")
+    # key material and passwords
+    KD = [b for b in prog.by_crate["rustic_core"] for bb, t in b.calls() if "callee" in t and callee(t) == "<rustic_core::crypto::aespoly1305::Key as std::default::Default>::default"]
+    bad = sorted({fn_key(b) for b in KD if not (b.impl or {}).get("trait", "").endswith("default::Default") or "MasterKey" in b.path or "KeyFile" in b.path})
+    rep.check("C04.f", "no-default-key-as-secret", not bad, where="crates/core/src/crypto/aespoly1305.rs", what="the all-zero Key::default() is never used where a key is generated" if not bad else f"Key::default() (all zero bytes) is used as key material in {bad}: every generated key is the same known key")
+    KN = prog.find1(r"^rustic_core::crypto::aespoly1305::Key::new$")
+    fills = [bb for bb, t in KN.calls() if "callee" in t and callee_decl(t).endswith("fill_bytes")]
+    rng = [bb for bb, t in KN.calls() if "callee" in t and re.search(r"^rand::(rng|thread_rng)$", callee(t))]
+    rep.check("C04.f", "key-new-random", len(fills) == 1 and len(rng) == 1 and flow.base_local(KN, op_place(KN.term(fills[0])["args"][1])) in flow.backward_slice(KN, [0])["locals"], where=KN.loc(), what="Key::new fills the returned key from rand::rng()")
+    mk = prog.find(r"^<rustic_core::repofile::keyfile::MasterKey as std::default::Default>::default$|^rustic_core::repofile::keyfile::MasterKey::new$")
+    gen = [b for b in mk if any("callee" in t and callee(t) == KN.path for _, t in b.calls()) or any("callee" in t and re.search(r"MasterKey as std::default::Default>::default$", callee(t)) for _, t in b.calls())]
+    rep.check("C04.f", "masterkey-generated-randomly", len(mk) >= 1 and len(gen) == len(mk), where=mk[0].loc() if mk else "", what="MasterKey::new/default generate the key with Key::new (random)")
+    # passwords are used verbatim: no normalising string transformation in the credential readers
+    norm = []
+    for b in prog.by_crate["rustic_core"]:
+        if "repository::credentials" not in b.path:
+            continue
+        for bb, t in b.calls():
+            if "callee" in t and re.search(r"^core::str::<impl str>::(trim|trim_end|trim_start|trim_matches|trim_end_matches|to_lowercase|to_uppercase|to_ascii_lowercase)$|^std::string::String::(to_lowercase)$", callee(t)):
+                norm.append(f"{fn_key(b)}: {callee(t).rsplit('::', 1)[-1]} @{where(b, bb)}")
+    rep.check("C04.f", "password-verbatim", not norm, where="crates/core/src/repository/credentials.rs", what="credential readers strip at most one line ending; no trimming/normalising of the password" if not norm else f"the password is normalised before use ({norm}): different passwords open the same repository")
     # ---- C04.f ------------------------------------------------------------------------------------
     FK = prog.find1(r"^rustic_core::repofile::keyfile::find_key_in_backend$")
     codes = []
